@@ -46,11 +46,14 @@ def make_judge(res):
     return judge
 
 
-def profile():
+def profile(h=0):
     p = Profile()
     p.getter_probes = True
     p.query_probes = False
     p.extra_tag_vals = ["a\nb", "x\r\ny", "\n"]
+    if h % 8 == 5:
+        p.max_rows = 45
+        p.min_ops, p.max_ops = 4, 10
     return p
 
 
@@ -67,7 +70,7 @@ def run(res, tier, seed, shard, nshards):
         for ci, cfg in enumerate(CONFIGS):
             for h in range(N_HIST[tier]):
                 rng = rng_for("C07", tier, seed, shard, ci, h)
-                s = HistoryRunner(res, cfg, scratch, rng, profile(), judge).run()
+                s = HistoryRunner(res, cfg, scratch, rng, profile(h), judge).run()
                 if h == 0 and shard == 0 and ci in (0, 3):
                     res.sample({"config": cfg_name(cfg), "first_ops": s.log[:5]})
     contracts.drain(res)
